@@ -205,8 +205,14 @@ def _run(call: GeneratorCall) -> Module:
         msg = f"Generator {call.gen} returned {m}, must return `Module`."
         raise RuntimeError(msg)
 
+    # Modules handed along from another generator call have already been named by it.
+    # Each Module has one name: leave it as is.
+    handed_along = m._generated_by is not None
+
     # Give the result a reference back to the generating `Call`
     m._generated_by = call
+    if handed_along:
+        return m
 
     # Module naming
     # If the Module that comes back is anonymous, start by giving it a name equal to the Generator's
